@@ -152,6 +152,7 @@ var seedExpectations = []seedExpect{
 	{"sample-offset-dropped", "C09", "sample.offsetkept", "lowerTextureSampleCompare"},
 	{"spirv-imagequery-capability", "C02", "cap.opcode", "emitImageLoadRestrict"},
 	{"spirv-image-key-raw-format", "C02", "cachekey.mapped", "imageTypeKey"},
+	{"spirv-pushconstant-wrapper", "C02", "space.sameclass", "globalNeedsWrapper"},
 	{"glsl-vector-select", "C05", "select.condshape", "writeSelect"},
 	{"glsl-image-atomic-coord", "C05", "image.coordbuilder", "writeImageAtomic"},
 	{"glsl-shallow-feature-scan", "C05", "walker.shallow", "scanStatementsForFeatures"},
